@@ -6,6 +6,7 @@ mod c03;
 mod c04;
 mod c06;
 mod c09;
+mod c10;
 mod c11;
 mod c14;
 mod check;
